@@ -3,7 +3,11 @@ package main
 import (
 	"encoding/json"
 	"flag"
+	"fmt"
 	"os"
+	"strconv"
+	"strings"
+	"unicode/utf8"
 
 	"github.com/hashicorp/go-bexpr/grammar"
 	"verif/harness/expr"
@@ -74,6 +78,65 @@ func cmdFidelity(args []string) error {
 				}
 				if r := run.Eval(ev, map[string]interface{}{"X": s, "L": []string{"other", s}}); r.O != "T" {
 					out = append(out, bad{S: s, Style: st, Text: text, What: "evaluates to " + r.O + " on X = s"})
+				}
+			}
+		}
+	}
+	// the other direction: spellings that the renderer never chooses - a carriage return inside backticks (Go drops it), every
+	// byte written as hex or octal escape, every rune as \u / \U escape; the Go string a spelling denotes is strconv.Unquote's
+	for _, s := range all {
+		var sp []string
+		if !strings.Contains(s, "`") && utf8.ValidString(s) {
+			sp = append(sp, "`\r"+s+"`", "`"+s+"\r`", "`"+s+"\r\n"+s+"`")
+			if _, n := utf8.DecodeRuneInString(s); n > 0 && n < len(s) {
+				sp = append(sp, "`"+s[:n]+"\r"+s[n:]+"`")
+			}
+		}
+		var hx, oc strings.Builder
+		for i := 0; i < len(s); i++ {
+			fmt.Fprintf(&hx, "\\x%02x", s[i])
+			fmt.Fprintf(&oc, "\\%03o", s[i])
+		}
+		sp = append(sp, "\""+hx.String()+"\"", "\""+oc.String()+"\"", strconv.QuoteToASCII(s))
+		if utf8.ValidString(s) {
+			var u strings.Builder
+			for _, r := range s {
+				if r > 0xffff {
+					fmt.Fprintf(&u, "\\U%08x", r)
+				} else {
+					fmt.Fprintf(&u, "\\u%04X", r)
+				}
+			}
+			sp = append(sp, "\""+u.String()+"\"")
+		}
+		for _, q := range sp {
+			want, err := strconv.Unquote(q)
+			if err != nil || (q[0] == '"' && strings.Contains(q[1:len(q)-1], "\"")) {
+				continue // the language has no way to write a double quote inside a double-quoted literal
+			}
+			for _, text := range []string{"X == " + q, q + " in L"} {
+				spelled++
+				ast, perr := grammar.Parse("", []byte(text))
+				if perr != nil {
+					out = append(out, bad{S: want, Style: "spelling", Text: text, What: "rejected: " + perr.Error()})
+					continue
+				}
+				m, ok := ast.(*grammar.MatchExpression)
+				if !ok || m.Value == nil {
+					out = append(out, bad{S: want, Style: "spelling", Text: text, What: "not a match expression with a value"})
+					continue
+				}
+				if m.Value.Raw != want {
+					out = append(out, bad{S: want, Style: "spelling", Text: text, What: "the literal does not denote the string it spells", Raw: m.Value.Raw})
+					continue
+				}
+				ev, o := run.Create(text)
+				if ev == nil {
+					out = append(out, bad{S: want, Style: "spelling", Text: text, What: "CreateEvaluator: " + o.O})
+					continue
+				}
+				if r := run.Eval(ev, map[string]interface{}{"X": want, "L": []string{"other", want}}); r.O != "T" {
+					out = append(out, bad{S: want, Style: "spelling", Text: text, What: "evaluates to " + r.O + " on X = s"})
 				}
 			}
 		}
